@@ -325,4 +325,22 @@ theorem correct_still_accepted_no_header_ahead (env : Env L) (s s' t : Node L) (
   correct_still_accepted_aux env s s' t b' b e hne hix hrej hacc hsame
     (reject_changes_nothing_no_header_ahead env s s' b' e hne hix hcond hrej).2.2.1
 
+/-- a rejected block leaves the ledger as it was (storeBlock drops the MPT batch on every error path) -/
+theorem reject_ledger_same (env : Env L) (s s' : Node L) (b : Block) (e : Err)
+    (h : addBlock env s b = (s', some e)) : s'.ledger = s.ledger := by
+  unfold addBlock at h
+  split at h
+  · cases h; rfl
+  split at h
+  · cases h; rfl
+  obtain ⟨hl, hx⟩ := headerStep_onlyHeaders env s b
+  split at h
+  · rename_i s1 e1 hs
+    rw [hs] at hx; simp only at hx
+    cases h; rw [hx]
+  · rename_i s1 hs
+    rw [hs] at hx; simp only at hx
+    have := bodyStep_err_same env s1 s' b e h
+    rw [this, hx]
+
 end NeoModel.AddBlock
